@@ -212,7 +212,7 @@ def check_case(fn, declared, ugs, recipe, script, config, rec=None):
             out, target, glb = run_config(fn, src, recipe, script, config, events, tevents, set(dnames) | set(ugs))
     except PR.Timeout:
         HY.force_global_clean()
-        raise PropertyViolation("hang", f"run under {config!r} did not finish within 3 s\n{src}")
+        raise PropertyViolation("hang", f"run under {config!r} did not finish within 3 s of CPU time\n{src}")
     except BaseException as e:
         if isinstance(e, (KeyboardInterrupt, SystemExit)):
             raise
